@@ -95,7 +95,12 @@ func enumMenus(h *harness) {
 			}
 			if full || dev <= 2 {
 				if ctx.Mine() {
-					h.run("A/"+lim.name+"/"+menuID(ms, idx), lim, stdSentinels, buildRecord(ms, idx))
+					at := append([]int(nil), idx...)
+					n := len(ms) - 1
+					for i, m := range ms {
+						n += len(m.opts[idx[i]])
+					}
+					h.run("A/"+lim.name+"/"+menuID(ms, idx), lim, stdSentinels, n >= 32, func() string { return buildRecord(ms, at) })
 				} else {
 					ctx.Skip()
 				}
@@ -161,7 +166,7 @@ func enumEdits(h *harness, seeds []*seed) {
 			ctx.Group(fmt.Sprintf("B/edits/%s/seed%d", lim.name, si))
 			t := s.text
 			pre := fmt.Sprintf("B/%s/seed%d/", lim.name, si)
-			h.run(pre+"unchanged", lim, s.st, t)
+			h.run(pre+"unchanged", lim, s.st, true, func() string { return t })
 			for pos := 0; pos <= len(t); pos++ {
 				if ctx.Stop() {
 					return
@@ -169,19 +174,22 @@ func enumEdits(h *harness, seeds []*seed) {
 				for c := 0; c < 256; c++ {
 					if pos < len(t) && byte(c) != t[pos] {
 						if ctx.Mine() {
-							h.run(fmt.Sprintf("%ssub/%d/%02x", pre, pos, c), lim, s.st, t[:pos]+string([]byte{byte(c)})+t[pos+1:])
+							pos, c := pos, c
+							h.run(fmt.Sprintf("%ssub/%d/%02x", pre, pos, c), lim, s.st, true, func() string { return t[:pos] + string([]byte{byte(c)}) + t[pos+1:] })
 						} else {
 							ctx.Skip()
 						}
 					}
 					if ctx.Mine() {
-						h.run(fmt.Sprintf("%sins/%d/%02x", pre, pos, c), lim, s.st, t[:pos]+string([]byte{byte(c)})+t[pos:])
+						pos, c := pos, c
+						h.run(fmt.Sprintf("%sins/%d/%02x", pre, pos, c), lim, s.st, true, func() string { return t[:pos] + string([]byte{byte(c)}) + t[pos:] })
 					} else {
 						ctx.Skip()
 					}
 				}
 				if pos < len(t) {
-					h.run(fmt.Sprintf("%sdel/%d", pre, pos), lim, s.st, t[:pos]+t[pos+1:])
+					pos := pos
+					h.run(fmt.Sprintf("%sdel/%d", pre, pos), lim, s.st, true, func() string { return t[:pos] + t[pos+1:] })
 				}
 			}
 		}
@@ -213,7 +221,7 @@ func enumShort(h *harness) {
 					b[i] = shortAlphabet[x]
 				}
 				s := string(b)
-				h.run("C/scaled/"+s, scaled, stdSentinels, s+shortTail)
+				h.run("C/scaled/"+s, scaled, stdSentinels, l > 0 && s[0] == '<', func() string { return s + shortTail })
 			} else {
 				ctx.Skip()
 			}
